@@ -219,13 +219,33 @@ def _from_loops(fn, params, ovar, oiter, ivar, iiter, elt):
     return params.index(op), f"outer loop runs over the columns of `{op}`, inner over `{ip}`: `{op}` is major"
 
 
-def fold_order(call, combinator_major):
+def fold_operand(arg, fn=None):
+    """the sequence a fold runs over, as a one-`for` comprehension node: a list comprehension / generator expression, possibly
+    wrapped in list(...) / tuple(...), or a local bound once to one of these; None otherwise"""
+    e = arg
+    for _ in range(4):
+        if isinstance(e, ast.Call) and dotted(e.func) in ("list", "tuple") and len(e.args) == 1 and not e.keywords:
+            e = e.args[0]
+            continue
+        if isinstance(e, ast.Name) and fn is not None:
+            ds = [st for st in walk_local(fn.node) if isinstance(st, ast.Assign) and len(st.targets) == 1 and unparse(st.targets[0]) == e.id]
+            stores = [n for n in ast.walk(fn.node) if isinstance(n, ast.Name) and n.id == e.id and isinstance(n.ctx, ast.Store)]
+            if len(ds) == 1 and len(stores) == 1:
+                e = ds[0].value
+                continue
+        break
+    if isinstance(e, (ast.ListComp, ast.GeneratorExp)) and len(e.generators) == 1 and not e.generators[0].ifs:
+        return e
+    return None
+
+
+def fold_order(call, combinator_major, fn=None):
     """`reduce(f, [E(c) for c in XS])` -> ('XS', 'leftmost-major' | 'rightmost-major', element expr)"""
     if not (isinstance(call, ast.Call) and dotted(call.func) in ("reduce", "functools.reduce") and len(call.args) == 2):
         raise AnalysisError(f"order algebra: `{unparse(call)}` is not reduce(f, list)")
-    lc = call.args[1]
-    if not (isinstance(lc, ast.ListComp) and len(lc.generators) == 1 and not lc.generators[0].ifs):
-        raise AnalysisError(f"order algebra: unmodelled fold operand `{unparse(lc)}`")
+    lc = fold_operand(call.args[1], fn)
+    if lc is None:
+        raise AnalysisError(f"order algebra: unmodelled fold operand `{unparse(call.args[1])}`")
     src = unparse(lc.generators[0].iter)
     rev = False
     it = lc.generators[0].iter
@@ -259,6 +279,19 @@ def list_fill_source(fn, listname):
     """the collection a list is filled from: `for c in XS: L.append(E(c))` (possibly under if/elif) -> XS"""
     loops = [n for n in walk_local(fn.node) if isinstance(n, ast.For) and any(
         isinstance(x, ast.Call) and unparse(x.func) == f"{listname}.append" for x in ast.walk(n))]
+    if not loops:
+        # the list is a comprehension / generator bound once to the name: [E(c) for c in XS]
+        ds = [st for st in walk_local(fn.node) if isinstance(st, ast.Assign) and len(st.targets) == 1 and unparse(st.targets[0]) == listname]
+        # the name may be re-bound afterwards to the joined labels (`labels = [":".join(t) for t in product(*labels)]`): the
+        # collection that is handed to product(...) is the binding that does not read the name itself
+        ds = [st for st in ds if not any(isinstance(n, ast.Name) and n.id == listname for n in ast.walk(st.value))
+              and isinstance(st.value, (ast.ListComp, ast.GeneratorExp))]
+        if len(ds) == 1 and isinstance(ds[0].value, (ast.ListComp, ast.GeneratorExp)) and len(ds[0].value.generators) == 1 \
+                and not ds[0].value.generators[0].ifs:
+            it = ds[0].value.generators[0].iter
+            rev = (isinstance(it, ast.Call) and dotted(it.func) == "reversed") or (isinstance(it, ast.Subscript) and unparse(it.slice) == "::-1")
+            src = unparse(it.args[0]) if rev and isinstance(it, ast.Call) else unparse(it.value) if rev else unparse(it)
+            return src, rev
     if len(loops) != 1:
         raise AnalysisError(f"order algebra: list `{listname}` in {fn.qual} is not filled by exactly one loop")
     lp = loops[0]
